@@ -125,6 +125,7 @@ class Sim:
         self.notes = []
         self.sig = hashlib.sha1()
         self.nshared = 0
+        self.last_progress_step = 0
         self.jobs = {j["name"]: j for j in scen["jobs"]}
         self.groups = {g["name"]: g for g in scen["groups"]}
         self.epoch = 0
@@ -188,6 +189,7 @@ class Sim:
         self.poll_streak = 0
         self.time_jumps = 0
         self.parks = 0
+        self.eg = {"phase": 1, "k": scen.get("endgame_k") or self.rng.randint(1, 10), "count": 0} if scen.get("endgame") else None
         self.inner_evals = {}
         self.inner_failures = []
         self.pct_points = set()
@@ -416,6 +418,7 @@ class Sim:
 
     def shared_event(self, a, what, obj):
         self.nshared += 1
+        self.last_progress_step = self.steps
         self.sig.update(f"{a.host if a else '-'}|{what}|{obj};".encode())
 
     # ------------------------------------------------------------------ results on disk
@@ -1224,6 +1227,23 @@ class Sim:
             return bool(self.PARK_POINTS.search(os.path.basename(msg.get("p", ""))))
         return False
 
+    def eg_hold(self, a):
+        """Endgame adversary: hold a running job open while its batch has nothing else left to start (the batch is down to
+        its last running jobs)."""
+        job, node = self.running_jobs.get(a.pid, (None, None))
+        if not node or not node.isdigit():
+            return False
+        b = self.batches.get(int(node))
+        if not b:
+            return False
+        launched = {j for j, ls in self.launches.items() if any(l["epoch"] == self.epoch for l in ls)}
+        done = {j for j, l in self.finished.items() if any(e == self.epoch for _, e in l)}
+        rows = set(self._rows_on_disk()) if False else set()
+        pending = [j for j in b["jobs"] if j not in launched and j not in done]
+        # jobs that will never be launched (canceled on the node) do not count: approximate by "all remaining are flagged and blocked by a failed job"
+        pending = [j for j in pending if not (self.jobs[j]["flag"] and any(self.finished.get(x, [(0, 0)])[-1][0] != 0 for x in self.jobs[j]["blocked_by"] if x in self.finished))]
+        return not pending
+
     def candidates(self):
         pol = self.scen.get("policy") or {}
         cands = []
@@ -1235,6 +1255,21 @@ class Sim:
                 if a.msg["k"] == "sleep" and a.wake > self.vnow:
                     sleepers.append(a)
                     continue
+                if self.eg and a.top == "usereg" and a.role == "py":
+                    if a.parked_until > self.steps:
+                        parked.append(a)
+                        continue
+                    if self.eg["phase"] in (2, 3) and a.parked_at != a.n and self.park_point(a.msg) and not self.holds_lock(a):
+                        a.parked_at = a.n
+                        self.eg["count"] += 1
+                        if self.eg["count"] == self.eg["k"]:
+                            a.parked_until = 10**9
+                            self.eg["phase"] = 4  # release the held jobs: the batches finish and leave while the round is stalled here
+                            self.eg["at"] = self.point_class(a.msg)
+                            self.parks += 1
+                            self.log("ENDGAME_STALL", a.pid, a.host, self.eg["at"], "critical point", self.eg["k"])
+                            parked.append(a)
+                            continue
                 if park_p and a.role == "py":
                     if a.parked_until > self.steps:
                         parked.append(a)
@@ -1244,10 +1279,15 @@ class Sim:
                         a.parked_until = self.steps + self.rng.choice([30, 100, 300, 1000])
                         self.parks += 1
                         parked.append(a)
+                        if self.scen.get("trace_ev"):
+                            self.log("PARK", a.pid, a.host, a.msg.get("ev") or a.msg["k"], os.path.basename(a.msg.get("p", "")) or (a.msg.get("argv") or [""])[0], "until", a.parked_until)
                         continue
                 w = 1.0
                 if a.msg["k"] == "jobrun":
                     if self.frozen_finishes:
+                        continue
+                    if self.eg and self.eg["phase"] < 4 and self.eg_hold(a):
+                        self.eg["held"] = True
                         continue
                     w = pol.get("finish_w", 0.5)
                 cands.append((w, "actor", a))
@@ -1256,11 +1296,20 @@ class Sim:
                 cands.append((pol.get("start_w", 0.5), "start", bid))
             elif b["state"] == "RUNNING" and b.get("kill_pending"):
                 cands.append((pol.get("scancel_w", 0.3), "kill", bid))
-        if parked and not any(c[1] == "actor" and c[2].msg["k"] != "jobrun" for c in cands):
-            # nobody else can move: the parked process with the earliest deadline continues
-            a = min(parked, key=lambda x: x.parked_until)
-            a.parked_until = 0
-            cands.append((1.0, "actor", a))
+        if parked:
+            others = [c for c in cands if not (c[1] == "actor" and c[2].msg["k"] == "sleep")]
+            idle_polling = self.steps - self.last_progress_step > 40
+            if self.eg and any(a.top == "usereg" and a.parked_until >= 10**9 for a in parked):
+                # the stalled endgame round continues only when the rest of the system has run dry: no job left to finish, no
+                # batch left to start, and the remaining processes (if any) have been polling without effect for a while
+                release = not others and (not sleepers and not cands or idle_polling)
+            else:
+                release = not any(c[1] == "actor" and c[2].msg["k"] != "jobrun" for c in cands)
+            if release:
+                # nobody else can move: the parked process with the earliest deadline continues
+                a = min(parked, key=lambda x: x.parked_until)
+                a.parked_until = 0
+                cands.append((1.0, "actor", a))
         f = self.scen.get("faults") or {}
         if f.get("node_kill") and self.fault_budget > 0:
             for bid, b in self.batches.items():
@@ -1278,6 +1327,17 @@ class Sim:
                 if not self.lock_held_by_live_actor():
                     self.vnow = min(a.wake for a in sleepers)
                     continue
+            if self.eg and self.eg["phase"] == 1 and self.eg.get("held") and "submit" in self.top_rc and not any(c[1] == "start" for c in cands) and (
+                not any(c[1] == "actor" and c[2].msg["k"] != "jobrun" for c in cands) or self.steps - self.last_progress_step > 30
+            ):
+                # every batch is down to its last running jobs (held open) and nobody holds the role: the user looks in
+                self.eg["phase"] = 2
+                self.spawn_top("usereg", ["jade", "try-submit-jobs", self.outname], self.rng.choice(["login", "login2"]))
+                self.settle()
+                continue
+            if self.eg and self.eg["phase"] in (2, 3) and "usereg" in self.top_rc:
+                self.eg["phase"] = 4  # the round ended before its k-th critical point: release
+                continue
             if not cands:
                 if not sleepers:
                     return None
@@ -1369,6 +1429,12 @@ class Sim:
             self.spawn_top("usercancel", ["jade", "cancel-jobs", self.outname] + extra, self.scen.get("cancel_host", "login"))
             return
         p = u.get("p", 0.01)
+        # endgame adversary: a user round promoted while batches are running jobs and nobody holds the role (the window in
+        # which "no active batch" and "all results collected" must not be confused)
+        if u.get("late_try") and self.user_done.get("late_try", 0) < u["late_try"] and self.obs and self.obs[-1]["submitter"] is None and not self.obs[-1]["complete"] and self.active_batches() and self.running_jobs and not any(t.startswith("user") and t not in self.top_rc for t in self.tops) and self.rng.random() < 0.08:
+            self.user_done["late_try"] = self.user_done.get("late_try", 0) + 1
+            self.spawn_top(f"userlate{self.user_done['late_try']}", ["jade", "try-submit-jobs", self.outname], self.rng.choice(["login", "login2"]))
+            return
         if self.user_done["try_submit"] < u.get("try_submit", 0) and self.rng.random() < p:
             self.user_done["try_submit"] += 1
             host = self.rng.choice(["login", "login2"])
@@ -1760,6 +1826,7 @@ class Sim:
             "cancel_sites": getattr(self, "cancel_sites", None),
             "time_jumps": self.time_jumps,
             "parks": self.parks,
+            "endgame_stalled_at": str(self.eg.get("at")) if self.eg and self.eg.get("at") else None,
             "inner_evals": sum(self.inner_evals.values()),
             "inner_failures": [list(map(str, f)) for f in self.inner_failures[:5]],
             "inner_failure_count": len(self.inner_failures),
